@@ -7,6 +7,7 @@ static struct isal_hufftables HT;
 static uint8_t *ebuf, *eout, *cbuf;
 static struct ri_result ER;
 static char hdesc[300];
+#define PAYMAX 260000
 
 static void emit(struct bw *w, uint64_t code, uint64_t len) { bw_bits(w, (uint32_t)code, (int)len); }
 /* re-statement of igzip/huffman.h get_*_code (how the encoder turns table entries into bits) */
@@ -20,6 +21,35 @@ static void t_dist(struct bw *w, int dist)
 	}
 	uint32_t d = dist - 1, msb = 32 - __builtin_clz(d), nx = msb - 2, xb = d & ((1u << nx) - 1), sym = (d >> nx) + 2 * nx;
 	emit(w, HT.dcodes[sym - IGZIP_DECODE_OFFSET] | ((uint64_t)xb << HT.dcodes_sizes[sym - IGZIP_DECODE_OFFSET]), HT.dcodes_sizes[sym - IGZIP_DECODE_OFFSET] + nx);
+}
+
+
+/* A literal that has no match, immediately followed by a match of length mlen at distance dist (dist >= mlen + 2):
+ *   A (mlen bytes without the literal), filler run, L, A again, terminator. Returns the new payload length. */
+static size_t add_triple(uint8_t *pay, size_t pl, int L, int mlen, int dist, const uint8_t *alpha, int na, uint64_t seed, int parity)
+{
+	uint8_t fill = alpha[0] == L ? alpha[1] : alpha[0], term = 0;
+	for (int i = 0; i < na; i++)
+		if (alpha[i] != L && alpha[i] != fill) { term = alpha[i]; break; }
+	for (int i = 0; i < parity; i++)
+		pay[pl++] = fill;
+	size_t a0 = pl;
+	uint64_t sd = seed;
+	for (int i = 0; i < mlen; i++) {
+		uint8_t c;
+		do
+			c = alpha[xs_next(&sd) % na];
+		while (c == L || (i == 0 && c == fill) || (i == mlen - 1 && c == fill));
+		pay[pl++] = c;
+	}
+	for (int i = 0; i < dist - mlen - 1; i++)
+		pay[pl++] = fill;
+	pay[pl++] = (uint8_t)L;
+	memcpy(pay + pl, pay + a0, mlen);
+	pl += mlen;
+	pay[pl++] = term;
+	pay[pl++] = (uint8_t)L;
+	return pl;
 }
 
 /* returns 0 ok */
@@ -112,7 +142,7 @@ static int check_tables(int subset, const char *builder, int deep)
 	/* (3) usable by the real encoder: worst-case payload + designed inputs, level 0, all flush modes, 3 kernels: round trip */
 	static uint8_t *pay;
 	if (!pay)
-		pay = malloc(80000);
+		pay = malloc(PAYMAX);
 	int longest = 0, ll = 0;
 	for (int i = 0; i < 256; i++)
 		if (b->ll_len[i] > ll && (!subset || H.lit_len_histogram[i])) { ll = b->ll_len[i]; longest = i; }
@@ -139,6 +169,43 @@ static int check_tables(int subset, const char *builder, int deep)
 		for (int i = 0; i < 3000 && na; i++) pay[pl++] = alpha[xs_next(&s) % na];
 		for (int i = 0; i < 3000 && na; i++, pl++) pay[pl] = pay[pl - 2999];
 		if (!na) pl = 0;
+	}
+	/* the widest single emission this table allows: the literal with the longest code, directly followed by a match whose
+	 * length symbol has the largest (code + extra bits) at a distance whose symbol has the largest (code + extra bits),
+	 * taken from the codes parsed out of the header; both parities of the literal's position; extra bits all ones and all zeros */
+	{
+		uint8_t alpha[256];
+		int na = 0;
+		for (int i = 0; i < 256; i++)
+			if (b->ll_len[i] && (!subset || H.lit_len_histogram[i]))
+				alpha[na++] = (uint8_t)i;
+		int S = -1, D = -1, sb = -1, db = -1;
+		for (int i = 0; i < 29; i++)
+			if (b->ll_len[257 + i] && b->ll_len[257 + i] + g_len_extra[i] >= sb) { sb = b->ll_len[257 + i] + g_len_extra[i]; S = i; }
+		for (int i = 0; i < 30; i++)
+			if (b->d_len[i] && b->d_len[i] + g_dist_extra[i] >= db) { db = b->d_len[i] + g_dist_extra[i]; D = i; }
+		if (na >= 8 && S >= 0 && D >= 0 && pl) {
+			int lmax = S == 28 ? 258 : g_len_base[S] + (1 << g_len_extra[S]) - 1, lmin = g_len_base[S];
+			int dmax = g_dist_base[D] + (1 << g_dist_extra[D]) - 1, dmin = g_dist_base[D];
+			int done_any = 0;
+			if (dmax >= lmax + 2) {
+				pl = add_triple(pay, pl, longest, lmax, dmax, alpha, na, 11, 0);
+				pl = add_triple(pay, pl, longest, lmax, dmax, alpha, na, 12, 1);
+				done_any = 1;
+			}
+			if (dmin >= lmin + 2) {
+				pl = add_triple(pay, pl, longest, lmin, dmin, alpha, na, 13, pl & 1);
+				done_any = 1;
+			} else if (dmax >= lmin + 2) {
+				pl = add_triple(pay, pl, longest, lmin, dmax, alpha, na, 14, 0);
+				pl = add_triple(pay, pl, longest, lmin, dmax, alpha, na, 15, 1);
+				done_any = 1;
+			}
+			if (done_any) {
+				v_count("worst_case_triple_payloads", 1);
+				v_max("widest_emission_bits_exercised", ll + sb + db);
+			}
+		}
 	}
 	static const int cpus[] = { CPU_BASE, CPU_SSE, CPU_AVX2 };
 	for (int ci = 0; ci < 3; ci++)
@@ -229,7 +296,7 @@ int main(int argc, char **argv)
 {
 	v_init(argc, argv, "C18");
 	gs_init();
-	ebuf = malloc(70000); eout = malloc(GS_MAXOUT); cbuf = malloc(3 * 80000 + 4096);
+	ebuf = malloc(70000); eout = malloc(GS_MAXOUT); cbuf = malloc(3 * PAYMAX + 4096);
 	static const uint64_t W[8] = { 0, 1, 2, 1ull << 10, 1ull << 20, 1ull << 30, 1ull << 43, (1ull << 44) - 1 };
 	/* position menu: literal 0, 'a', 255; EOB 256; length 257, 264, 265, 284, 285; distance 0, 3, 4, 28, 29 (as 286+d) */
 	static const int menu[14] = { 0, 'a', 255, 256, 257, 264, 265, 284, 285, 286 + 0, 286 + 3, 286 + 4, 286 + 28, 286 + 29 };
@@ -285,6 +352,42 @@ int main(int argc, char **argv)
 					run_hist(1);
 					v_nontrivial(v_mix(1000 + kind, nll * 100 + ndd));
 				}
+		/* asymmetric depth: one chosen distance symbol, one chosen length symbol and one literal sit at the bottom of a
+		 * Fibonacci chain whose other members are cheap symbols (few extra bits), everything else is heavy: the chosen symbols
+		 * are the ONLY wide ones (a deepest symbol's sibling is then a narrow one) */
+		{
+			static const int lsyms[] = { 284, 285, 281, 277, 273, 269, 265, 264, 257 };
+			for (int ds = 0; ds < 30; ds++)
+				for (int lsi = 0; lsi < (v_thorough ? 9 : 3); lsi++)
+					for (int cl = 10; cl <= 22; cl += (v_thorough ? 3 : 6)) {
+						if (!v_mine(unit++))
+							continue;
+						if (nfail > 20 || v_deadline_hit())
+							goto done;
+						memset(&H, 0, sizeof H);
+						for (int i = 0; i < 286; i++) H.lit_len_histogram[i] = 1ull << 30;
+						for (int i = 0; i < 30; i++) H.dist_histogram[i] = 1ull << 30;
+						uint64_t a = 1, b2 = 2;
+						H.lit_len_histogram['X'] = 1;
+						H.lit_len_histogram[lsyms[lsi]] = 1;
+						for (int i = 0; i < cl; i++) {
+							H.lit_len_histogram[1 + i] = b2;
+							uint64_t t = a + b2; a = b2; b2 = t;
+						}
+						a = 1; b2 = 1;
+						H.dist_histogram[ds] = 1;
+						for (int i = 0, k = 0; k < cl && i < 30; i++) {
+							if (i == ds)
+								continue;
+							H.dist_histogram[i] = b2;
+							uint64_t t = a + b2; a = b2; b2 = t;
+							k++;
+						}
+						snprintf(hdesc, sizeof hdesc, "histogram{asymmetric: dist %d, lit/len %d and literal 'X' alone at the bottom of a %d-long fibonacci chain of cheap symbols, rest 2^30}", ds, lsyms[lsi], cl);
+						run_hist(1);
+						v_nontrivial(v_mix(5000 + ds, lsi * 100 + cl));
+					}
+		}
 		for (int v = 0; v < 3; v++) {
 			if (!v_mine(unit++))
 				continue;
